@@ -55,6 +55,32 @@ def gen(rnd, n, lengths):
         out.append({"anchor": 0, "key": list(key), "seq": list(seq.to_bytes(6, "big")), "addr": list(addr),
                     "at": 1 if at == CEMIAddressType.GROUP else 0, "eff": int(ff), "tpci": t.to_knx() >> 2,
                     "scf": scf.to_knx()[0], "alg": alg, "apdu": list(apdu), "out": res})
+    # ... and through DataSecure.outgoing_cemi: the frame's own address type, frame format and TPCI must be the ones that are authenticated
+    from xknx.cemi import CEMILData
+    from xknx.cemi.flags import CEMIFlags
+    from xknx.secure.data_secure import DataSecure
+    from xknx.telegram import GroupAddress, IndividualAddress
+    from xknx.telegram.apci import GroupValueRead, GroupValueWrite
+    from xknx.dpt import DPTArray
+
+    for i in range(max(n // 5, 12)):
+        key = rnd.randbytes(16)
+        ga, src = GroupAddress(rnd.randrange(1, 65536)), IndividualAddress(rnd.randrange(1, 65536))
+        seq = rnd.choice([1, 2**48 - 1, rnd.randrange(1, 2**48)])
+        ds = DataSecure(group_key_table={ga: key}, individual_address_table={}, last_sequence_number_sending=seq)
+        ff = [CEMIFrameFormat.STANDARD, CEMIFrameFormat.LTE_HEE][i % 2]
+        t = [T.TDataGroup(), T.TDataTagGroup()][(i // 2) % 2]
+        pl = GroupValueRead() if i % 5 == 0 else GroupValueWrite(DPTArray(tuple(rnd.randbytes(lengths[i % len(lengths)] % 200 + 1))))
+        data = CEMILData(flags=CEMIFlags(frame_format=ff), src_addr=src, dst_addr=ga, tpci=t, payload=pl)
+        try:
+            sec = ds.outgoing_cemi(data)
+            res = list(sec.payload.secured_data.to_knx())
+            scf = sec.payload.scf.to_knx()[0]
+            ff_out, t_out = sec.flags.frame_format, sec.tpci          # what will be written on the wire
+        except Exception:  # noqa: BLE001
+            res, scf, ff_out, t_out = [], 0x10, ff, t
+        out.append({"anchor": 0, "key": list(key), "seq": list(seq.to_bytes(6, "big")), "addr": list(src.to_knx() + ga.to_knx()),
+                    "at": 1, "eff": int(ff_out), "tpci": t_out.to_knx() >> 2, "scf": scf, "alg": 1, "apdu": list(pl.to_knx()), "out": res})
     return out
 
 
